@@ -4,7 +4,7 @@
 //! Observed through public API only:
 //!   helper::date::convert_date, helper::date::convert_date_windows_1900,
 //!   helper::date::excel_to_date_time_object, Worksheet::get_formatted_value (cell with the number
-//!   format "yyyy-mm-dd hh:mm:ss").
+//!   format "yyyy-mm-dd hh:mm:ss"; action "disp": with any number format given by the case).
 //!
 //! An f64 cannot travel through TLC's Json reader, so a serial x is logged *losslessly* as five
 //! integers [n, f3, f2, f1, f0]:  n = floor(x)  and  x - n = (f3*2^39 + f2*2^26 + f1*2^13 + f0) / 2^52
@@ -60,10 +60,13 @@ struct Sheet {
 
 impl Sheet {
     fn new() -> Sheet {
+        Sheet::with_format(FORMAT)
+    }
+    fn with_format(code: &str) -> Sheet {
         let mut book = umya_spreadsheet::new_file();
         {
             let ws = book.get_sheet_mut(&0).unwrap();
-            ws.get_style_mut("A1").get_number_format_mut().set_format_code(FORMAT);
+            ws.get_style_mut("A1").get_number_format_mut().set_format_code(code);
         }
         Sheet { book }
     }
@@ -130,7 +133,7 @@ fn item(c: [i32; 6], sheet: &mut Option<Sheet>) -> Value {
 fn run(case: &Value) -> Vec<Value> {
     let a = s(case, "a");
     let id = case["case"].clone();
-    let fmt = b(case, "fmt");
+    let fmt = case["fmt"].as_bool().unwrap_or(false);
     let mut sheet = if fmt { Some(Sheet::new()) } else { None };
     match a {
         // every listed day [y,m,d] at one time of day (sod = second of the day)
@@ -157,6 +160,44 @@ fn run(case: &Value) -> Vec<Value> {
                 .map(|t| item([y, m, d, t / 3600, (t / 60) % 60, t % 60], &mut sheet))
                 .collect();
             vec![json!({"a":"secs","case":id,"y":y,"m":m,"d":d,"from":from,"fmt":fmt,"items":items})]
+        }
+        // the displayed text of a cell holding convert_date(c) under an arbitrary number format
+        "disp" => {
+            let code = s(case, "format").to_string();
+            let mut sh = Sheet::with_format(&code);
+            let items: Vec<Value> = case["items"]
+                .as_array()
+                .unwrap()
+                .iter()
+                .map(|ci| {
+                    let g = |k: usize| ci[k].as_i64().unwrap() as i32;
+                    let c = [g(0), g(1), g(2), g(3), g(4), g(5)];
+                    let mut out = json!({"c": c, "s": [0, 0, 0, 0, 0], "t": "", "o": "ok"});
+                    let x = match std::panic::catch_unwind(|| date::convert_date(c[0], c[1], c[2], c[3], c[4], c[5])) {
+                        Ok(x) => x,
+                        Err(_) => {
+                            out["o"] = json!("panic");
+                            return out;
+                        }
+                    };
+                    match enc(x) {
+                        Some(e) => out["s"] = json!(e),
+                        None => {
+                            out["o"] = json!("unrep");
+                            return out;
+                        }
+                    }
+                    match std::panic::catch_unwind(std::panic::AssertUnwindSafe(|| sh.display(x))) {
+                        Ok(t) => out["t"] = json!(t),
+                        Err(_) => {
+                            sh = Sheet::with_format(&code);
+                            out["o"] = json!("panic");
+                        }
+                    }
+                    out
+                })
+                .collect();
+            vec![json!({"a":"disp","case":id,"format":code,"items":items})]
         }
         _ => panic!("unknown dateserial action {}", a),
     }
